@@ -360,9 +360,10 @@ def make_stimulus(rng, block, ncycles, exhaustive):
 # ----------------------------------------------------------------------------
 # running the real passes
 
-def run_real(block, ps, views=None, watch=None):
+def run_real(block, ps, views=None, watch=None, observe=None):
     """returns (raised_at, error) ; raised_at = index of the pass that raised PyrtlError, or None.
-    watch = (decoy block, its fingerprint, list): the passes that changed the decoy are appended"""
+    watch = (decoy block, its fingerprint, list): the passes that changed the decoy are appended;
+    observe(k) is called after every pass but the last (the caller observes the final block itself)"""
     for k, p in enumerate(ps):
         if views is not None and k == len(ps) - 1:
             views.append(real_view(block))
@@ -373,6 +374,8 @@ def run_real(block, ps, views=None, watch=None):
         finally:
             if watch is not None and fingerprint(watch[0]) != watch[1] and not watch[2]:
                 watch[2].append(p)
+        if observe is not None and k < len(ps) - 1:
+            observe(k)
     return None, None
 
 
@@ -553,14 +556,25 @@ def post_real(p, wires, nets):
 
 # ----------------------------------------------------------------------------
 
-def pass_sequences(ctx, rng, kind):
+def pass_sequences(ctx, rng, kind, i=0):
+    """every single pass; each pass applied TWICE; ordered pairs; longer sequences with repetition
+    (p,q,p / random length 3-4), e.g. two_way_fanout, nand_synth, two_way_fanout"""
+    quick = ctx.tier == 'quick'
+    small = kind in ('synth', 'logic', 'directed', 'shapes')
     singles = [[p] for p in range(1, 7)]
+    repeats = [[p, p] for p in range(1, 7)]
     pairs = [[p, q] for p in range(1, 7) for q in range(1, 7) if p != q]
-    if ctx.tier == 'quick':
+    sandwiches = [[p, q, p] for p in range(1, 7) for q in range(1, 7) if p != q]
+    if quick:
+        repeats = [repeats[(i + k) % 6] for k in (0, 3)] if i % 2 else [repeats[5], repeats[(i // 2) % 5]]
         pairs = rng.sample(pairs, 2)
-    elif kind not in ('synth', 'logic', 'directed', 'shapes'):
-        pairs = rng.sample(pairs, 10)
-    return singles + pairs
+        longer = [rng.choice(sandwiches), [rng.randint(1, 6) for _ in range(rng.randint(3, 4))]]
+    else:
+        if not small:
+            pairs = rng.sample(pairs, 10)
+        longer = rng.sample(sandwiches, 6 if small else 3) + \
+            [[rng.randint(1, 6) for _ in range(rng.randint(3, 5))] for _ in range(3)]
+    return singles + repeats + pairs + longer
 
 
 def run(ctx):
@@ -590,7 +604,7 @@ def run(ctx):
             outs = sorted(w.name for w in block.wirevector_subset(pyrtl.Output))
             in_names = sorted(w.name for w in ins)
             probes = [(m.id, a) for m in mems for a in range(1 << m.addrwidth)]
-            pss = pass_sequences(ctx, rng, kind)
+            pss = pass_sequences(ctx, rng, kind, i)
             stim = '%d %s %s %s %s' % (dflt, dump.regmap(regmap), dump.memmap(memmap),
                                         dump.inputs(inputs), nlx.pairs(probes))
             exprs.append('c09_multi [%s] %s %s' % (
@@ -609,7 +623,25 @@ def run(ctx):
                     pyrtl.set_working_block(block, no_sanity_check=True)
                 views = []
                 culprit = []
-                raised_at, err = run_real(block, ps, views, (decoy, decoy_fp, culprit) if explicit else None)
+                steps = []
+
+                def observe(k, steps=steps):
+                    """well-formedness, I/O names and behaviour after EVERY step of the sequence"""
+                    stp = {'k': k, 'sane': True, 'sane_err': None, 'trace': None, 'mem': None}
+                    try:
+                        block.sanity_check()
+                    except (pyrtl.PyrtlError, pyrtl.PyrtlInternalError) as e:
+                        stp['sane'], stp['sane_err'] = False, str(e)
+                    stp['io'] = (sorted(w.name for w in block.wirevector_subset(pyrtl.Input)),
+                                 sorted(w.name for w in block.wirevector_subset(pyrtl.Output)))
+                    if stp['sane']:
+                        try:
+                            stp['trace'], stp['mem'] = simulate(block, regmap, memmap, inputs, dflt, outs, mems)
+                        except (pyrtl.PyrtlError, pyrtl.PyrtlInternalError) as e:
+                            stp['sane'], stp['sane_err'] = False, 'Simulation: ' + str(e)
+                    steps.append(stp)
+                raised_at, err = run_real(block, ps, views, (decoy, decoy_fp, culprit) if explicit else None,
+                                          observe)
                 if explicit:
                     ctx.count('block_argument', 'explicit block= with a decoy working block')
                     if fingerprint(decoy) != decoy_fp:
@@ -624,7 +656,7 @@ def run(ctx):
                     pyrtl.set_working_block(block, no_sanity_check=True)
                 else:
                     ctx.count('block_argument', 'working block')
-                r = {'ps': ps, 'before_last': views[0] if views else None, 'raised_at': raised_at, 'err': err, 'sane': None, 'sane_err': None,
+                r = {'ps': ps, 'steps': steps, 'before_last': views[0] if views else None, 'raised_at': raised_at, 'err': err, 'sane': None, 'sane_err': None,
                      'trace': None, 'mem': None}
                 if raised_at is None:
                     try:
@@ -721,7 +753,24 @@ def run(ctx):
                               'nets_after': ['%s %s <- %s %s' % (n[3], n[0], ','.join(map(str, n[2])), n[1] or '')
                                              for n in (r.get('nets') or [])[:8]]}
                              if ci < 3 and si in (2, 5) else None))
-            ctx.count('pass_sequences', '+'.join(psn) if len(ps) == 1 else 'pair')
+            ctx.count('pass_sequences', '+'.join(psn) if len(ps) == 1 else ('same pass twice' if len(ps) == 2 and ps[0] == ps[1] else ('pair' if len(ps) == 2 else 'length %d' % len(ps))))
+            # ---- search: obligations after EVERY intermediate step of the sequence
+            for stp in r.get('steps', []):
+                pre = psn[:stp['k'] + 1]
+                if not stp['sane']:
+                    ctx.spec_violation('%s:sanity_check' % pre[-1],
+                                       'block is not well-formed after step %d of %s (%s): %r' % (
+                                           stp['k'] + 1, psn, pre, (stp['sane_err'] or '')[:200]),
+                                       dict(rep, passes=pre, then=psn[stp['k'] + 1:]))
+                    continue
+                if stp['io'] != (c['ins'], c['outs']):
+                    ctx.spec_violation('%s:io-names' % pre[-1], 'Input/Output names changed by %s' % pre,
+                                       dict(rep, passes=pre, io_after=stp['io']))
+                if stp['trace'] is not None and (stp['trace'] != spec_trace or stp['mem'] != spec_mem):
+                    ctx.spec_violation('%s:behaviour' % '+'.join(pre),
+                                       '%s changed behaviour (intermediate step %d of %s)' % (pre, stp['k'] + 1, psn),
+                                       dict(rep, passes=pre))
+                ctx.count('intermediate_steps_checked', len(pre))
             # ---- precondition tie
             if r['raised_at'] is not None:
                 ctx.count('precondition', 'rejected:' + PASSES[ps[r['raised_at']]])
